@@ -1376,6 +1376,10 @@ func (s *Service) runPipeline(rp *runnablePipeline) error {
 	// other end of this function — closed exactly once, only after every
 	// worker has exited (workersWg.Wait below). See funnel.Sink's doc.
 	if err := rp.sink.Open(ctx); err != nil {
+		// no worker will be opened: give their processors back
+		for _, w := range rp.workers {
+			w.Release(context.Background())
+		}
 		return cerrors.Errorf("failed to open shared sink: %w", err)
 	}
 
@@ -1390,6 +1394,11 @@ func (s *Service) runPipeline(rp *runnablePipeline) error {
 				_ = opened[j].Close(context.Background())
 			}
 			_ = rp.sink.Close(context.Background())
+			// the workers after this one are never opened: give their
+			// processors back
+			for _, unopened := range rp.workers[i+1:] {
+				unopened.Release(context.Background())
+			}
 			return cerrors.Errorf("failed to open worker for source %s: %w", rp.sourceIDs[i], err)
 		}
 		opened = append(opened, w)
